@@ -228,7 +228,81 @@ Proof.
   - destruct (relax (succs g out) rest deg) as [st' dg'] eqn:E.
     apply IH; [eapply Inv_step; eauto|simpl; lia].
 Qed.
+(* ---- any iteration order (Go ranges over maps: the initial stack and the
+   successors of a popped task come in an unspecified order) ---- *)
+Lemma Inv_ext st st2 dg dg2 rs :
+  Permutation st st2 -> (forall n, dg n = dg2 n) -> Inv st dg rs -> Inv st2 dg2 rs.
+Proof.
+  intros P E I. constructor.
+  - eapply Permutation_NoDup; [|apply (inv_nodup _ _ _ I)]. now apply Permutation_app_head.
+  - intros n Hn. apply (inv_names _ _ _ I). eapply Permutation_in; [|exact Hn].
+    apply Permutation_app_head. now symmetry.
+  - intros n. rewrite <- E. apply (inv_deg _ _ _ I).
+  - intros n Hn. rewrite <- E. apply (inv_le _ _ _ I). eapply Permutation_in; [|exact Hn].
+    apply Permutation_app_head. now symmetry.
+  - intros ND. destruct (inv_resp _ _ _ I ND) as [R S]. split; auto.
+    intros n Hn. apply S. eapply Permutation_in; [symmetry; exact P|exact Hn].
+Qed.
+
+Lemma Permutation_filter_Z (f : Z -> bool) l l' : Permutation l l' -> Permutation (filter f l) (filter f l').
+Proof.
+  induction 1; simpl; auto.
+  - destruct (f x); auto.
+  - destruct (f x), (f y); auto. constructor.
+  - etransitivity; eauto.
+Qed.
+Lemma memb_perm n l l' : Permutation l l' -> memb n l = memb n l'.
+Proof.
+  intros P. destruct (memb n l') eqn:E.
+  - apply memb_In. apply memb_In in E. eapply Permutation_in; [symmetry; exact P|exact E].
+  - apply memb_false. apply memb_false in E. intros C. apply E. eapply Permutation_in; eauto.
+Qed.
+
+Lemma Inv_step_any s1 out s2 deg rs ss st' dg' :
+  Inv (s1 ++ out :: s2) deg rs -> Permutation ss (succs g out) ->
+  relax ss (s1 ++ s2) deg = (st', dg') -> Inv st' dg' (out :: rs).
+Proof.
+  intros I P H.
+  assert (I1 : Inv (out :: s1 ++ s2) deg rs).
+  { eapply Inv_ext; [|reflexivity|exact I]. symmetry. apply Permutation_middle. }
+  destruct (relax (succs g out) (s1 ++ s2) deg) as [st0 dg0] eqn:E0.
+  pose proof (Inv_step _ _ _ _ _ _ I1 E0) as I2.
+  apply relax_spec in E0; [|apply succs_NoDup]. destruct E0 as [S0 D0].
+  apply relax_spec in H; [|eapply Permutation_NoDup; [symmetry; exact P|apply succs_NoDup]].
+  destruct H as [S1 D1].
+  eapply Inv_ext; [| |exact I2].
+  - subst. apply Permutation_app_tail. rewrite <- !Permutation_rev.
+    apply Permutation_filter_Z. now symmetry.
+  - intros n. rewrite D0, D1. now rewrite (memb_perm n _ _ P).
+Qed.
 End Kahn.
+
+(* a run of topoSort with every choice left open: which stack element is popped
+   next (covers every initial order and every push order) and in which order the
+   successors are visited *)
+Inductive krun (g : graph) : list Z -> (Z -> Z) -> list Z -> list Z -> Prop :=
+| kr_done deg rs : krun g [] deg rs rs
+| kr_step s1 out s2 deg rs ss st' dg' final :
+    Permutation ss (succs g out) -> relax ss (s1 ++ s2) deg = (st', dg') ->
+    krun g st' dg' (out :: rs) final -> krun g (s1 ++ out :: s2) deg rs final.
+
+Lemma krun_inv g : forall st deg rs final, krun g st deg rs final ->
+  Inv g st deg rs -> exists deg', Inv g [] deg' final.
+Proof.
+  induction 1 as [deg rs|s1 out s2 deg rs ss st' dg' final P R K IH]; intros I; eauto.
+  apply IH. eapply Inv_step_any; eauto.
+Qed.
+
+(* the model's deterministic run is one of them *)
+Lemma kahn_is_krun g : forall fuel st deg rs final,
+  kahn fuel g st deg rs = Some final -> krun g st deg rs final.
+Proof.
+  induction fuel as [|f IH]; intros st deg rs final H; destruct st as [|out rest]; simpl in H; try discriminate.
+  - inversion H; subst. constructor.
+  - inversion H; subst. constructor.
+  - destruct (relax (succs g out) rest deg) as [st' dg'] eqn:E.
+    apply (kr_step g [] out rest deg rs (succs g out) st' dg' final); auto.
+Qed.
 
 (* ---------- the specification ---------- *)
 Definition before (l : list Z) (a b : Z) : Prop :=
@@ -252,13 +326,10 @@ Proof.
     exists l1, (l2 ++ [m]). rewrite E, <- app_assoc. simpl. auto.
 Qed.
 
-Theorem toposort_sound : forall g order, topo g = TopoOk order -> topo_order g order.
+Lemma Inv_final_order g deg' rs :
+  Inv g [] deg' rs -> length rs = length g -> topo_order g (rev rs).
 Proof.
-  intros g order H. unfold topo in H.
-  destruct (kahn _ g _ _ []) as [rs|] eqn:K; [|discriminate].
-  destruct (Nat.eqb (length rs) (length g)) eqn:L; [|discriminate].
-  inversion H; subst order. apply Nat.eqb_eq in L.
-  apply kahn_inv in K; [|apply Inv_init]. destruct K as [deg' I].
+  intros I L.
   pose proof (inv_nodup _ _ _ _ I) as ND. rewrite app_nil_r in ND.
   assert (Incl : incl rs (gnames g)).
   { intros x Hx. apply (inv_names _ _ _ _ I). rewrite app_nil_r. auto. }
@@ -272,6 +343,31 @@ Proof.
     assert (Hin : In n rs).
     { eapply Permutation_in; [symmetry; exact P|]. apply in_map_iff. exists (n, ds). auto. }
     destruct (resp_before g rs R _ _ _ Hn Hin Hd) as [H1 H2]. split; auto.
+Qed.
+
+Theorem toposort_sound : forall g order, topo g = TopoOk order -> topo_order g order.
+Proof.
+  intros g order H. unfold topo in H.
+  destruct (kahn _ g _ _ []) as [rs|] eqn:K; [|discriminate].
+  destruct (Nat.eqb (length rs) (length g)) eqn:L; [|discriminate].
+  inversion H; subst order. apply Nat.eqb_eq in L.
+  apply kahn_inv in K; [|apply Inv_init]. destruct K as [deg' I].
+  now apply (Inv_final_order g deg' rs).
+Qed.
+
+(* the same for EVERY iteration order the Go maps may produce: whatever order the
+   initial zero-in-degree tasks are stacked in, whichever stack element is taken and in
+   whatever order successors are visited, a run that outputs as many tasks as the job
+   has (isDag = true) outputs a topological order *)
+Theorem toposort_sound_any_order : forall g st0 final,
+  Permutation st0 (filter (fun n => deg0 g n =? 0) (dedup (gnames g) [])) ->
+  krun g st0 (deg0 g) [] final -> length final = length g ->
+  topo_order g (rev final).
+Proof.
+  intros g st0 final P K L.
+  apply krun_inv in K.
+  - destruct K as [deg' I]. now apply (Inv_final_order g deg' final).
+  - eapply Inv_ext; [symmetry; exact P|reflexivity|apply Inv_init].
 Qed.
 
 Theorem toposort_fuel_sufficient : forall g, topo g <> TopoFuel.
@@ -305,6 +401,30 @@ Proof.
   destruct (idx_in a l1 (b :: l2) Ha) as [E1 E2]. rewrite E1.
   rewrite idx_notin; auto. apply NoDup_remove_2 in ND. rewrite in_app_iff in ND. tauto.
 Qed.
+
+(* what an order with these properties means for the graph: every reference
+   exists and there is no cycle *)
+Lemma topo_order_closed_acyclic g order : topo_order g order ->
+  (forall n ds d, In (n, ds) g -> In d ds -> In d (gnames g)) /\
+  (forall x, ~ clos_trans Z (edge g) x x).
+Proof.
+  intros (NDn & P & T). split.
+  - intros n ds d Hn Hd. apply (T _ _ _ Hn Hd).
+  - intros x C.
+    assert (NDo : NoDup order) by (eapply Permutation_NoDup; [symmetry; exact P|auto]).
+    assert (L : forall a b, clos_trans Z (edge g) a b -> (idx a order < idx b order)%nat).
+    { induction 1 as [a b (ds & H1 & H2)|a b c _ IH1 _ IH2]; [|lia].
+      apply before_idx; auto. apply (T _ _ _ H1 H2). }
+    apply L in C. lia.
+Qed.
+
+(* no iteration order lets a cyclic or dangling graph through *)
+Corollary toposort_any_order_rejects : forall g st0 final,
+  Permutation st0 (filter (fun n => deg0 g n =? 0) (dedup (gnames g) [])) ->
+  krun g st0 (deg0 g) [] final -> length final = length g ->
+  (forall n ds d, In (n, ds) g -> In d ds -> In d (gnames g)) /\
+  (forall x, ~ clos_trans Z (edge g) x x).
+Proof. intros. eapply topo_order_closed_acyclic. eapply toposort_sound_any_order; eauto. Qed.
 
 Theorem toposort_rejects_dangling : forall g n ds d,
   In (n, ds) g -> In d ds -> ~ In d (gnames g) -> is_dag g = false.
